@@ -23,10 +23,10 @@ BUDGET_S = {'quick': 40, 'thorough': 540}
 # floors = 30-40% of what seed 0 reaches on the tree as found, where the diagnosis of the many failures eats ~60% of the
 # budget (quick: 1240 pairs on an idle machine, 840 with other checks running; thorough: 28900 pairs); on a repaired tree
 # the same budget yields about six times as much (quick 7000 pairs, thorough 58000)
-FLOORS = {'quick': {'pairs': 380, 'pixels_judged': 2000000, 'single_layer_requests': 180, 'combined_requests_observed': 55,
-                    'pruned_requests_observed': 32, 'opacity_layers': 160, 'colorkey_layers': 90, 'clip_layers': 55,
-                    'group_requests': 65, 'cache_layers': 80, 'alpha_judged': 150, 'res_hidden_layers': 140,
-                    'fmt_png8': 48, 'fmt_jpeg': 48, 'fmt_tiff': 55},
+FLOORS = {'quick': {'pairs': 1900, 'pixels_judged': 10000000, 'single_layer_requests': 900, 'combined_requests_observed': 270,
+                    'pruned_requests_observed': 160, 'opacity_layers': 800, 'colorkey_layers': 450, 'clip_layers': 270,
+                    'group_requests': 320, 'cache_layers': 400, 'alpha_judged': 750, 'res_hidden_layers': 700,
+                    'fmt_png8': 240, 'fmt_jpeg': 240, 'fmt_tiff': 270},
           'thorough': {'pairs': 11000, 'pixels_judged': 65000000, 'single_layer_requests': 5600,
                        'combined_requests_observed': 1900, 'pruned_requests_observed': 780, 'opacity_layers': 4000,
                        'colorkey_layers': 3200, 'clip_layers': 2000, 'group_requests': 2000, 'cache_layers': 2900,
